@@ -17,7 +17,9 @@ any depth (captures = used in the subtree minus defined in the subtree).  Refuti
 * an initializer the region needs is missing, or an initializer nothing in the region uses is present, or it
   carries another tensor;
 * the result shares a Graph/Node/Value object with the source model (identity sets through public accessors,
-  nested graphs, producer()/uses()/graph links; tensors may be shared) or a node input is defined nowhere in it;
+  nested graphs, producer()/uses()/graph links; tensors may be shared), or a mutable object one of them owns - a value's
+  type object or an element type object at any level of a Sequence/Optional type, its Shape object, a metadata_props /
+  opset_imports dictionary (``extract|shares-object|Type|<role>.type.elem_type`` ...) - or a node input is defined nowhere in it;
 * executable models (vfpy/gen_exec.py): the source is run ONCE with every value of the cut graph exposed as an
   extra output, the region is wrapped in a model with the source's ir_version / functions / opset imports and
   run on the recorded boundary values with an evaluator that ran both: an output differs from the recorded
@@ -170,6 +172,9 @@ def plan(tier: str) -> dict:
             "exec_compared": 5000 * f,
             "exec_compared:ort": 300 * f,
             "identity_walks": 30000 * f,
+            # results holding a value whose type nests another type object (Sequence/Optional, 'ir' models): the identity
+            # walk then compares type objects below the outermost one (seen: ~15-20 k per quick run)
+            "identity_walks_result_with_sequence_or_optional_typed_value": 1500 * f,
             "implicit_roots_checked": 100 * f,
             "implicit_nested_graphs_checked": 150 * f,
             "implicit_captures_used_deeper": 15 * f,
@@ -352,6 +357,13 @@ class Env:
         self.model = model
         self.executable = executable
         self.src_ids = OR.collect_objects([model.graph, *model.functions.values()])
+        # mutable objects the source's graphs/nodes/values OWN besides Graph/Node/Value (type objects at every nesting level
+        # of Sequence/Optional, Shape objects, metadata_props / opset_imports dictionaries): an independent copy refers to
+        # none of them either.  {id: (kind, obj)} - obj keeps the id from being reused.  Tensors are not listed (may be shared).
+        self.src_sub_ids: dict[int, tuple[str, object]] = {}
+        for _kind, o in list(self.src_ids.values()):
+            for kind, _role, sub in owned_objects(o):
+                self.src_sub_ids.setdefault(id(sub), (kind, sub))
         self.sources: dict[str, CX.Source | None] = {}
 
 
@@ -474,8 +486,36 @@ def _node_key(n: ir.Node):
     return (tuple(o.name for o in n.outputs), n.op_type, n.domain)
 
 
-def find_shared(result: ir.Graph, src_ids: dict) -> list[tuple[str, str]]:
-    """(kind, role) of every Graph/Node/Value reachable from the result that is an object of the source."""
+def owned_objects(o):
+    """(kind, role, obj) of the mutable objects a Graph / Node / Value holds that are no Graph/Node/Value themselves and
+    that the statement's 'referring to no object of the source' covers: the type object of a value and, for the recursive
+    Sequence/Optional types, the element type objects at every level (kind 'Type'; a DataType member is a constant, not an
+    object of the source), its Shape object (the dimensions inside are immutable and not looked at), and the
+    metadata_props / opset_imports dictionaries.  Public accessors only.  Tensors may be shared and are not listed."""
+    if isinstance(o, ir.Value):
+        t, role, seen = o.type, "type", set()
+        while t is not None and not isinstance(t, ir.DataType) and id(t) not in seen:
+            seen.add(id(t))
+            yield "Type", role, t
+            t, role = getattr(t, "elem_type", None), "type.elem_type"
+        if o.shape is not None:
+            yield "Shape", "shape", o.shape
+    if isinstance(o, (ir.Value, ir.Node, ir.Graph)):
+        yield "metadata_props", "metadata_props", o.metadata_props
+    if isinstance(o, ir.Graph):
+        yield "opset_imports", "opset_imports", o.opset_imports
+
+
+def _type_depth(v: ir.Value) -> int:
+    d, t = 0, v.type
+    while t is not None and not isinstance(t, ir.DataType) and d < 8:
+        d, t = d + 1, getattr(t, "elem_type", None)
+    return d
+
+
+def find_shared(result: ir.Graph, src_ids: dict, src_sub_ids: dict | None = None, stats: Counter | None = None) -> list[tuple[str, str]]:
+    """(kind, role) of every Graph/Node/Value reachable from the result that is an object of the source and - with
+    ``src_sub_ids`` - of every object owned by a result Graph/Node/Value (``owned_objects``) that the source owns."""
     shared: list[tuple[str, str]] = []
     seen: set[int] = set()
     stack: list[tuple[object, str]] = [(result, "result")]
@@ -487,6 +527,14 @@ def find_shared(result: ir.Graph, src_ids: dict) -> list[tuple[str, str]]:
         if id(o) in src_ids:
             shared.append((src_ids[id(o)][0], role))
             continue  # everything behind a source object is source
+        if src_sub_ids is not None and isinstance(o, (ir.Graph, ir.Node, ir.Value)):
+            for kind, sub_role, sub in owned_objects(o):
+                if id(sub) in src_sub_ids and src_sub_ids[id(sub)][1] is sub:
+                    shared.append((kind, f"{role}.{sub_role}"))
+            if stats is not None and isinstance(o, ir.Value):
+                stats["values"] += 1
+                if _type_depth(o) >= 2:
+                    stats["recursive"] += 1
         if isinstance(o, (ir.Graph, ir.GraphView)):
             nested = "" if role == "result" else "nested-"
             stack.extend((v, nested + "graph-input") for v in o.inputs)
@@ -652,8 +700,11 @@ def judge_cut(env: Env, gl: OR.GraphLike, ins, outs, in_by_name, out_by_name, *,
     if exp_inits:
         out.events.append("regions_with_initializers")
     # independence
-    shared = find_shared(result, env.src_ids)
+    stats: Counter = Counter()
+    shared = find_shared(result, env.src_ids, env.src_sub_ids, stats)
     out.events.append("identity_walks")
+    if stats["recursive"]:
+        out.events.append("identity_walks_result_with_sequence_or_optional_typed_value")
     if shared:
         out.violations.append(("shares-object", {"kind": shared[0][0], "role": shared[0][1], "all": sorted(set(shared))[:8]}))
     dang = _dangling_inputs(result)
